@@ -86,6 +86,21 @@ def run(ctx, prop, modules, nontrivial_keys, quick=(1500, 50), thorough=(30000, 
                      for sd in (1, 2, 3)]
             do(extra)
             ctx.notes["search"] = "ran %d extra seeded sweeps looking for a failing input" % len(extra)
+    if ok and hx and not ctx.replay and prop in ("C01", "C02"):
+        # time passing INSIDE operations (judged directly by the harness; the model's operations are instantaneous)
+        tr = os.path.join(ctx.work, "ticks.out")
+        if ctx.run_harness(hx, ["-mode", "ticks"], tr):
+            lines = open(tr).read().splitlines()
+            n = 0
+            for i, l in enumerate(lines):
+                if l.startswith("tick "):
+                    n += 1
+                    if "=> FAIL" in l:
+                        hist = "\n".join(x[2:] for x in lines[i + 1:i + 40] if x.startswith("# ") and not x.startswith("# history"))
+                        ctx.monitor_fail.append({"what": l[:400], "signature": "ticks " + l[:200],
+                                                 "case": "# the clock jumps inside the marked external call (hxenv -mode ticks)\n" + l + "\n" + hist})
+            ctx.notes["tick_cases"] = n
+            ctx.cov["evaluations"] += n * 7
     nt = 0
     for _, s in stats:
         for k in nontrivial_keys: nt += s.get(k, 0)
